@@ -121,6 +121,9 @@ def run(ctx):
         else:
             images.append(('f%d.hfe' % k, flux.hfe_image(trs, 1, not mfm, v3=(kind_ == 'hfe3'), opcode_rng=r.fork(), opcode_density=40), 'flux'))
             if k < 2:
+                # header fields the quiet path never looks at (interface mode, bit rate, rpm, step, write flags) set to values no table knows
+                for (hk, ov) in enumerate(({16: 0x0E}, {16: 0x80, 12: 0, 13: 0}, {16: 0xFF, 14: 0xFF, 15: 0xFF, 20: 0, 21: 0x55}, {17: 0x7F, 8: 9})):
+                    images.append(('q%d_%d.hfe' % (k, hk), flux.hfe_image(trs, 1, not mfm, header_overrides=ov), 'flux'))
                 # the same as HFE v3 with SKIPBITS opcodes whose operand is not a bit count (ignored, with a message)
                 images.append(('s%d.hfe' % k, flux.hfe_image(trs, 1, not mfm, v3=True, opcode_rng=r.fork(), opcode_density=25, bad_skip=True), 'flux'))
         if k % 2 == 0:
